@@ -2,7 +2,7 @@
     clauses the property names; the remaining functions are decided by
     correspondence, see DESIGN.md).  Statements only. *)
 From Coq Require Import Sorting.Permutation Sorting.Sorted.
-From JP Require Import Base F64 Value Sig Functions Interp Proofs.ObjFacts Proofs.FunProof Proofs.OrdProof Proofs.StrFunProof.
+From JP Require Import Base F64 Value Sig Functions Interp Proofs.ObjFacts Proofs.FunProof Proofs.OrdProof Proofs.StrFunProof Proofs.ByProof.
 
 (** sort / sort_by: the sorting routine of the model (stable insertion sort by
     [Ord for Variable], applied to the values resp. to (value, key) pairs)
@@ -76,6 +76,37 @@ Theorem C02_max_by_min_by_return_an_element : forall ev (better : bool) sg vs e 
   (vs = [] /\ r = VNull) \/ In r vs.
 Proof. exact max_by_returns_element. Qed.
 Print Assumptions C02_max_by_min_by_return_an_element.
+
+(** sort_by: the expression reference is evaluated once per element, in order, against
+    that element ([each]); the result lists the elements in an order that is a
+    permutation of the input paired with those keys, and — when the keys are
+    numbers or strings, which is what the function admits — ascending by key
+    and stable (elements with equivalent keys keep their relative order). *)
+Theorem C02_sort_by : forall ev sg v0 vs ast off r o', validate sg [VArr (v0 :: vs); VExpref ast] off = Ok tt ->
+  call_builtin ev BSortBy sg [VArr (v0 :: vs); VExpref ast] off = Ok (r, o') ->
+  exists keys sorted, each ev ast (v0 :: vs) off keys o' /\ r = VArr (map fst sorted) /\ Permutation (combine (v0 :: vs) keys) sorted /\
+    (homogeneous_keys keys ->
+       StronglySorted (le key_cmp) sorted /\
+       forall p, In p (combine (v0 :: vs) keys) -> filter (equiv_to key_cmp p) sorted = filter (equiv_to key_cmp p) (combine (v0 :: vs) keys)).
+Proof. exact call_sort_by. Qed.
+Print Assumptions C02_sort_by.
+
+(** max_by / min_by: the keys are computed once per element, in order; the result is
+    an element of the array together with its own key, and no element's key
+    exceeds (resp. undercuts) that key. *)
+Theorem C02_max_by_extreme_key : forall ev sg v0 vs ast off r o', validate sg [VArr (v0 :: vs); VExpref ast] off = Ok tt ->
+  call_builtin ev BMaxBy sg [VArr (v0 :: vs); VExpref ast] off = Ok (r, o') ->
+  exists keys, each ev ast (v0 :: vs) off keys o' /\
+    (homogeneous_keys keys -> exists k, In (r, k) (combine (v0 :: vs) keys) /\ forall p, In p (combine (v0 :: vs) keys) -> le var_cmp (snd p) k).
+Proof. exact call_max_by. Qed.
+Print Assumptions C02_max_by_extreme_key.
+
+Theorem C02_min_by_extreme_key : forall ev sg v0 vs ast off r o', validate sg [VArr (v0 :: vs); VExpref ast] off = Ok tt ->
+  call_builtin ev BMinBy sg [VArr (v0 :: vs); VExpref ast] off = Ok (r, o') ->
+  exists keys, each ev ast (v0 :: vs) off keys o' /\
+    (homogeneous_keys keys -> exists k, In (r, k) (combine (v0 :: vs) keys) /\ forall p, In p (combine (v0 :: vs) keys) -> le var_cmp k (snd p)).
+Proof. exact call_min_by. Qed.
+Print Assumptions C02_min_by_extreme_key.
 
 (** merge is right-biased: each key holds its last binding over all arguments. *)
 Theorem C02_merge_right_biased : forall ev sg objs off o k,
